@@ -141,6 +141,9 @@ class ConcatenatedLazyIndexer(LazyIndexer):
             # If selection is a slice, split it into smaller slices that span individual indexers
             # Start by normalising slice to full first-stage range
             start, stop, stride = keep_head.indices(len(self))
+            if stride < 0:
+                # The splitting below assumes that indexers are visited in order of increasing index
+                raise IndexError('ConcatenatedLazyIndexer does not support negative slice steps on first dimension')
             chunks = []
             # Step through indexers that overlap with slice (it's guaranteed that some will overlap)
             for ind in range(find_indexer(start), find_indexer(stop) + 1):
